@@ -1029,6 +1029,107 @@ def _check_tf(case, ctx):
 
 
 # ---- MTF / PTF / OTF ---------------------------------------------------------------------------------
+# ---- transfer functions given as methods of objects whose parameters are swept; frequency axes handed out by the library and edited by the caller -------
+class _Blur:
+    """a transfer function with a parameter, given to the library 'as a class method' (documented way of currying parameters)"""
+
+    def __init__(self, width, kind):
+        self.width = width
+        self.kind = kind
+
+    def gauss(self, fr):
+        return np.exp(-(fr * self.width) ** 2)
+
+    def smear_x(self, fx):
+        return np.sinc(fx * self.width)
+
+    def lorentz(self, fx, fy):
+        return 1.0 / (1.0 + (self.width * fx) ** 2 + (0.5 * self.width * fy) ** 2)
+
+    def __call__(self, fr):
+        return 1.0 / (1.0 + (fr * self.width) ** 2)
+
+    def value(self, fx, fy):
+        fr = np.hypot(fx, fy)
+        return {'gauss': np.exp(-(fr * self.width) ** 2), 'smear_x': np.sinc(fx * self.width) + 0 * fy,
+                'lorentz': 1.0 / (1.0 + (self.width * fx) ** 2 + (0.5 * self.width * fy) ** 2), 'instance': 1.0 / (1.0 + (fr * self.width) ** 2)}[self.kind]
+
+    def as_tf(self):
+        return self if self.kind == 'instance' else getattr(self, self.kind)
+
+
+def strat_tfobj(tier):
+    ax = st.sampled_from([4, 5, 6, 7, 8, 9, 12, 16, 17] + ([31, 32] if tier == 'thorough' else []))
+    w = st.sampled_from([0.0, 0.3, 0.7, 1.0, 1.9, 3.5])
+    return st.fixed_dictionaries({
+        'shape': st.tuples(ax, ax).map(list), 'dx': st.sampled_from([1.0, 0.5, 0.25, 2.0]), 'shift': st.booleans(),
+        'kinds': st.lists(st.sampled_from(['gauss', 'smear_x', 'lorentz', 'instance']), min_size=1, max_size=2),
+        'widths': st.lists(st.tuples(w, w).map(list), min_size=2, max_size=4),
+        'scribble': st.sampled_from(['none', 'none', 'before', 'between', 'render-synthetic-surface']), 'rebuild_tf': st.booleans(), 'seed': U.seeds})
+
+
+def check_tfobj(case, ctx):
+    """apply_transfer_functions with transfer functions given as bound methods / callable instances of objects whose parameters are swept between calls
+    (same objects, same image size): every call equals the explicit product with the transfer function of the *current* parameters, evaluated on
+    the harness's own frequency grids.  Optionally the caller first asks the library for frequency axes of the same sampling and edits what it got."""
+    from prysm.convolution import apply_transfer_functions
+    from prysm.fttools import forward_ft_unit
+    ny, nx = case['shape']
+    dx, shift = case['dx'], case['shift']
+    obj = _real(case['seed'], (ny, nx), 'random', 3)
+    fy1 = np.fft.fftfreq(ny, dx)
+    fx1 = np.fft.fftfreq(nx, dx)
+    if shift:
+        fy1, fx1 = np.fft.fftshift(fy1), np.fft.fftshift(fx1)
+    FX, FY = np.meshgrid(fx1, fy1)
+    blurs = [_Blur(0.0, k) for k in case['kinds']]
+    tfs = [b.as_tf() for b in blurs]
+    ctx.nt(True)
+    ctx.label('shift' if shift else 'no-shift', 'scribble:' + case['scribble'], *['tf:' + k for k in case['kinds']])
+
+    def scribble():
+        # what a caller may do with arrays the library handed out: they are the caller's
+        for n in (ny, nx):
+            for sh in (True, False):
+                a = ctx.call(forward_ft_unit, dx, n, sh)
+                if isinstance(a, np.ndarray) and a.flags.writeable:
+                    a[...] = 123.0
+    if case['scribble'] == 'before':
+        scribble()
+    elif case['scribble'] == 'render-synthetic-surface':
+        # another public consumer of the same frequency axes, with the sampling of this image (size / (samples - 1) == dx)
+        from prysm.interferogram import render_synthetic_surface, ab_psd
+        np.random.seed(case['seed'] % 1000)
+        for n in {ny, nx}:
+            if n >= 4:
+                try:
+                    render_synthetic_surface(dx * (n - 1), n, rms=1.0, mask=None, psd_fcn=ab_psd, a=1.0, b=2.0)
+                except Exception:       # noqa - nothing is asserted about this request
+                    ctx.label('render-synthetic-surface:raised')
+    kept = []
+    for step, ws in enumerate(case['widths']):
+        if step == 1 and case['scribble'] == 'between':
+            scribble()
+        for b, wv in zip(blurs, ws):
+            b.width = wv
+        if case['rebuild_tf']:
+            tfs = [b.as_tf() for b in blurs]          # a new bound-method object of the same owner every call
+        got = np.asarray(ctx.call(apply_transfer_functions, obj, dx, list(tfs), shift=shift))
+        TF = np.ones((ny, nx))
+        for b in blurs:
+            TF = TF * b.value(FX, FY)
+        if shift:
+            want = np.fft.fftshift(np.fft.ifft2(np.fft.ifftshift(np.fft.fftshift(np.fft.fft2(np.fft.ifftshift(obj))) * TF))).real
+        else:
+            want = np.fft.ifft2(np.fft.fft2(obj) * TF).real
+        U.check_close(got, want, 0, 'apply_tf:object-callables:step%d' % min(step, 1) + (':after-' + case['scribble'] if case['scribble'] != 'none' else ''),
+                      'call %d with widths %r (%s), shape %s dx %g shift %r' % (step, ws, case['kinds'], case['shape'], dx, shift),
+                      atol=1e-10 * max(float(np.abs(obj).max()), 1e-300))
+        for j, (g0, w0) in enumerate(kept):
+            U.check_equal(g0, w0, 'apply_tf:object-callables:result-overwritten', 'the result of call %d changed during call %d' % (j, step))
+        kept.append((got, got.copy()))
+
+
 def _psf(case):
     shape, seed, kind = tuple(case['shape']), case['seed'], case['kind']
     ny, nx = shape
@@ -1283,5 +1384,6 @@ CLAUSES = [
     EnumClause('conv_impulse_positions', enum_impulse, check_impulse, shards={'quick': 4, 'thorough': 12}),
     HypClause('transfer_functions', strat_tf, check_tf, examples={'quick': 500, 'thorough': 2500}, shards={'quick': 3, 'thorough': 12}),
     HypClause('transfer_functions_large', lambda tier: strat_tf(tier, big=True), check_tf, examples={'quick': 8, 'thorough': 40}, shards={'quick': 3, 'thorough': 6}),
+    HypClause('transfer_function_objects', strat_tfobj, check_tfobj, examples={'quick': 300, 'thorough': 2000}, shards={'quick': 2, 'thorough': 6}),
     HypClause('mtf_otf_ptf', strat_mtf, check_mtf, examples={'quick': 600, 'thorough': 2500}, shards={'quick': 2, 'thorough': 8}),
 ]
